@@ -121,6 +121,20 @@ def gen_event(rng, states, params, stochastic=False, max_trans=3, symbolic_mag=F
     return {"rate": rate, "trans": trans}
 
 
+def _display_names(rng, ids, others):
+    out = {}
+    for i, nm in enumerate(ids):
+        r = rng.random()
+        later = [o for o in ids[i + 1:]]
+        if r < 0.35 and later:
+            out[nm] = rng.choice(later)                       # shown under the identifier of a later variable
+        elif r < 0.5:
+            out[nm] = rng.choice([o for o in others if o != nm] or [nm + "_lbl"])
+        elif r < 0.8:
+            out[nm] = rng.choice(["%s_lbl" % nm, "%s rate" % nm, nm.upper() + "0"])
+    return out
+
+
 def choose_route(rng, pr, allow_add=True):
     from .build import legacy_ok
     opts = ["event", "event", "event_eq"]
@@ -148,6 +162,14 @@ def gen_model(rng, stochastic=False, n=None, m=None, p=None, with_odes=None, wit
     if rng.random() < 0.3:
         model["param_decl"] = "string"
         model["param_sep"] = rng.choice([" ", ",", ", "])
+    # ODEVariable objects whose display name differs from the identifier; some display names are the
+    # identifier of another variable (a later parameter, a state), which only a lookup by identifier survives
+    if rng.random() < 0.22:
+        model["param_decl"] = "objects"
+        model["param_display"] = _display_names(rng, params, list(params) + list(names))
+    if not limits and len(decl) == len(names) and rng.random() < 0.15:
+        model["state_decl"] = "objects"
+        model["state_display"] = _display_names(rng, names, list(names) + list(params))
     derived = []
     use = list(params)
     if with_derived is None:
